@@ -159,6 +159,46 @@ def DocBefore : Path → Path → Bool
   | _ :: _, [] => false
   | a :: p, b :: q => if a = b then DocBefore p q else stepLt a b
 
+/-! ### axis functions of `XPath::step` (XPath.cpp `findChildren`, `findAttributes`, `findParent`, `findAncestors`,
+`findFollowingSiblings`, `findPreceedingSiblings`), as pointer walks over paths.  Result: the nodes in the order the
+loop appends them, and whether the code then calls `setReverseDocumentOrder()` (else `setDocumentOrder()`). -/
+
+inductive Axis where
+  | child | attributes | parent | ancestor | followingSibling | precedingSibling
+deriving DecidableEq, Repr
+
+def findAxis (t : Tree) : Axis → Path → List Path × Bool
+  | .child, ctx =>
+    -- `getFirstChild()` / `getNextSibling()` loop
+    match t.sub ctx with
+    | some pt => ((List.range pt.kids.length).map fun k => ctx ++ [Step.child k], false)
+    | none => ([], false)
+  | .attributes, ctx =>
+    -- loop over `getAttributes()`
+    match t.sub ctx with
+    | some pt => ((List.range pt.nattrs).map fun k => ctx ++ [Step.attr k], false)
+    | none => ([], false)
+  | .parent, ctx =>
+    match parentOf ctx with
+    | some p => ([p], false)
+    | none => ([], false)
+  | .ancestor, ctx =>
+    -- `while ((context = getParentOfNode(*context)) != 0) add`: nearest first, flagged reverse
+    (((List.range ctx.length).reverse).map fun k => ctx.take k, true)
+  | .followingSibling, ctx =>
+    -- `getNextSibling()` loop (an attribute and the document node have no siblings)
+    if ctx = [] ∨ lastIsAttr ctx = true then ([], false)
+    else
+      match t.sub ctx.dropLast with
+      | some pt =>
+        ((List.range' (lastPos ctx + 1) (pt.kids.length - (lastPos ctx + 1))).map fun j =>
+          ctx.dropLast ++ [Step.child j], false)
+      | none => ([], false)
+  | .precedingSibling, ctx =>
+    -- `getPreviousSibling()` loop: nearest first, flagged reverse
+    if ctx = [] ∨ lastIsAttr ctx = true then ([], true)
+    else (((List.range (lastPos ctx)).reverse).map fun j => ctx.dropLast ++ [Step.child j], true)
+
 /-- index comparison (`node1.getIndex() > node2.getIndex()`) through the document-order list -/
 def indexOf (t : Tree) (p : Path) : Nat := t.paths.idxOf p
 
